@@ -365,8 +365,14 @@ def build_member(A, rec):
         return np.asfortranarray(A[rec[1]:rec[2]].reshape(rec[3]))
     if t == "c2":
         return np.ascontiguousarray(A[rec[1]:rec[2]].reshape(rec[3]))
-    if t == "be":
+    if t == "be":        # same values, other byte order (other bytes)
         return A[rec[1]:rec[2]].astype(">f8")
+    if t == "bsw":       # same bytes, other byte order (other values)
+        a = A[rec[1]:rec[2]]
+        return a.view(a.dtype.newbyteorder())
+    if t == "bsw2":      # the same, spelled byteswap().view(...) of swapped data
+        a = A[rec[1]:rec[2]].byteswap()
+        return a.byteswap().view(a.dtype.newbyteorder())
     if t == "0d":
         return np.array(A[rec[1]])
     if t == "np":
@@ -403,8 +409,10 @@ def gen_array_recipe(rng, lo=0, hi=7):
         if (j - i) % 2 == 0 and j - i >= 4:
             return [rng.choice(["f", "c2"]), i, j, [2, (j - i) // 2]]
         return ["s", i, j]
-    if r < 0.91:
+    if r < 0.885:
         return ["be", i, j]
+    if r < 0.91:
+        return [rng.choice(["bsw", "bsw", "bsw2"]), i, j]
     if r < 0.96:
         return ["0d", i]
     return ["np", i]
@@ -461,6 +469,8 @@ def gen_sig(rng):
         if rng.random() < 0.12:
             dt = rng.choice(["<i8", "<f4"])
             x, y = ["v", 0, a, dt], ["v", a, 2 * a, dt]
+        elif rng.random() < 0.1:
+            x, y = ["bsw", 0, a], [rng.choice(["bsw", "s"]), a, 2 * a]
         if rng.random() < 0.12:
             x = rng.choice([["rev", 0, a], ["st", 0, 2, a], ["stc", 0, 2, a]])
             if x[0] != "rev":
@@ -504,6 +514,8 @@ def gen_sig(rng):
         a, b = ["stc", 0, 2, n], ["stc", 1, 2, n]
     else:
         a, b = ["rev", 0, n], ["s", n, 2 * n]
+    if rng.random() < 0.12:
+        a = ["bsw", 0, n]
     samples = ["py", ["i", rng.choice([0, 1, 2, 3, n])]]
     pos = [a, b]
     kw = {}
@@ -563,7 +575,9 @@ def gen_cache_case(rng, thorough=False, big=False):
             sigs.append(sg)
         ops.append({"f": sg[0], "pos": sg[1], "kw": sg[2]})
         nouts += 1
-    return dict(kind="cache", base=base, cap=cap, ops=ops)
+    # calls made and wiped with Cache.clear_cache() before the history starts
+    prefill = rng.choice([0, 0, 2, cap + 2]) if not big else rng.choice([0, 3])
+    return dict(kind="cache", base=base, cap=cap, prefill=prefill, ops=ops)
 
 
 class AtomPool:
@@ -628,6 +642,11 @@ def run_cache_case(case, memos=None):
     try:
         cached.Cache.clear_cache()
         cached.MAX_SIZE = case["cap"]
+        if case.get("prefill"):
+            # clear_cache() must bring the table back to its initial state
+            for k in range(case["prefill"]):
+                safe_call(memos["probe_a"].obj, "prefill", k)
+            cached.Cache.clear_cache()
         for i, op in enumerate(case["ops"]):
             if "mut" in op:
                 j = op["mut"]
@@ -2058,6 +2077,15 @@ def shrink(run, failure):
         except Exception:
             return False
 
+    if not fails(case):
+        # not reproducible in isolation: the failure depended on what ran in
+        # the same process before Cache.clear_cache() (state that survives it)
+        cand = (dict(case, prefill=case.get("cap", 100) + 2)
+                if kind == "cache" else None)
+        if cand is not None and fails(cand):
+            case = cand
+        else:
+            return failure
     ops = list(case["ops"])
 
     def valid(o):
